@@ -5,6 +5,9 @@ import FP.Proofs.NodeExpandGraph
 import FP.Proofs.NodeExpandKFD
 import FP.Proofs.NodeExpandModes
 import FP.Proofs.WalkCoreExample
+import FP.Proofs.NodeExpandModesCyc
+import FP.Proofs.NodeExpandModesCycWalks
+import FP.Proofs.NodeExpandModesCycWitness
 /-!
 # C11 — node-weighted solving equals solving the explicitly node-expanded instance
 
@@ -37,6 +40,19 @@ end in `.0` / `.1`):
   (former finding C11-kpathcover-node-length-default); `kcover_node_mode_length_regression` is the regression theorem
   on the input of that defect (node LP = edge LP on the expansion, feasible for `k = 1`),
   `kcover_former_reading_differs` records what the LP was before the fix.
+
+* the four **cyclic** k-classes (model: `FP/Model/NodeExpandModesCyc.lean`):
+  `node_mode_is_edge_mode_on_expansion_kcoverc` (unconditional), `…_kfdc`, `…_klaec`, `…_kmpec`. The cyclic
+  constructors compute their per-edge repetition caps on the expanded graph from whatever `flow_attr` values sit on it
+  — ignored edges included — and `NodeExpandedDiGraph` copies every attribute of an original edge `(u, v)` onto
+  `(u.1, v.0)`. `w_max` always comes out equal; the caps of `kFlowDecompCycles` come out equal **exactly when** no
+  original edge inside a cycle carries an attribute named like the flow attribute with a value other than `w_max`
+  (`kfdc_caps_equal_iff`); for the two error classes it suffices that such attributes have value `0`. Without the
+  hypothesis the equality fails: `kfdc_node_mode_cap_from_edge_attribute_differs` (the node LP is infeasible, the LP
+  on the explicit expansion feasible), `errc_node_mode_cap_from_edge_attribute_differs`; both inputs are replayed on
+  the real classes (finding `C11-cyclic-node-mode-cap-from-edge-attribute`). Independent of the caps:
+  `node_mode_walks_condense_kfdc` / `_kcoverc` / `_klaec` / `_kmpec` — every walk decoded from a satisfying
+  assignment of a cyclic node branch condenses to an admissible walk of the caller's graph in original names.
 
 The candidate falsifiers of the design notes are settled as follows: dotted names do **not** break
 condensing (`condense_expand`, `dotted_names_condense_witness`); the other candidates
@@ -420,5 +436,206 @@ example : ∃ lp, kcoverNodeLP { exCover with nf := { exCover.nf with constraint
   | error e => rw [h] at hok; cases hok
   | ok lp =>
     exact ⟨lp, rfl, node_mode_is_edge_mode_on_expansion_kcover _ lp exCover_closed h⟩
+
+/-! ## the cyclic k-classes: kFlowDecompCycles, kPathCoverCycles, kLeastAbsErrorsCycles, kMinPathErrorCycles -/
+
+/-- **kPathCoverCycles(cover_type="node").** Whenever the node branch accepts its input, its LP is the LP of the
+edge-level class on the explicit expansion (every node an edge to be covered unless the caller ignores it, all
+original edges ignored, additional starts `v.0` / ends `v.1`). Unconditional: the repetition caps are
+`number_of_edges * number_of_nodes` of the augmented expansion and read no attribute. `hc` holds for every networkx
+graph (edges join nodes). -/
+theorem node_mode_is_edge_mode_on_expansion_kcoverc (inp : NodeModeInput) (lp : LP) (hc : Closed inp.nf.ng.g)
+    (h : kcovercNodeLP inp = .ok lp) : lp = kcovercLP (expandWalkCoverInput inp) :=
+  NX.nxc_kcoverc_node_eq inp lp hc h
+
+/-- **kFlowDecompCycles** (with or without `given_weights`). `hc`, `hef` hold for every networkx graph (edges join
+nodes; attributes sit on existing edges). `hcap` is needed (`kfdc_caps_equal_iff`,
+`kfdc_node_mode_cap_from_edge_attribute_differs`): the class caps the repetitions of an edge of the expanded graph by
+`data[flow_attr] if flow_attr in data else w_max`, and the copy `(u.1, v.0)` of an original edge carries every
+attribute of `(u, v)` — so an original edge inside a cycle that happens to carry an attribute named like the flow
+attribute must carry `w_max` for the node branch to build the LP of the explicit expansion. -/
+theorem node_mode_is_edge_mode_on_expansion_kfdc (inp : NodeModeInput) (given : Option (List Rat)) (lp : LP)
+    (hc : Closed inp.nf.ng.g) (hef : ∀ p ∈ inp.nf.ng.edgeFlow, p.1 ∈ inp.nf.ng.g.edges)
+    (hcap : ∀ x q, inp.nf.ng.edgeFlow.lookup x = some q →
+      isSccEdge (expandWalkInput inp).st.g (edgeEdge x) = true → q = (expandWalkInput inp).wmax false)
+    (h : kfdcNodeLP inp given = .ok lp) : lp = kfdcLP (expandWalkInput inp) given :=
+  NX.nxc_kfdc_node_eq inp given lp hc hef hcap h
+
+/-- … in particular when no original edge carries an attribute named like the flow attribute -/
+theorem node_mode_is_edge_mode_on_expansion_kfdc_of_no_edge_attr (inp : NodeModeInput) (given : Option (List Rat))
+    (lp : LP) (hc : Closed inp.nf.ng.g) (hno : inp.nf.ng.edgeFlow = [])
+    (h : kfdcNodeLP inp given = .ok lp) : lp = kfdcLP (expandWalkInput inp) given :=
+  NX.nxc_kfdc_node_eq inp given lp hc (by rw [hno]; intro p hp; cases hp)
+    (by rw [hno]; intro x q hl; cases hl) h
+
+/-- **`w_max` always agrees, and the caps of `kFlowDecompCycles` agree exactly under `hcap`** -/
+theorem kfdc_caps_equal_iff (inp : NodeModeInput) (hc : Closed inp.nf.ng.g)
+    (hef : ∀ p ∈ inp.nf.ng.edgeFlow, p.1 ∈ inp.nf.ng.g.edges) :
+    (nxcTranslated inp inp.nf.ng).wmax false = (expandWalkInput inp).wmax false ∧
+    (kfdcBounds (nxcTranslated inp inp.nf.ng) = kfdcBounds (expandWalkInput inp) ↔
+      ∀ x q, inp.nf.ng.edgeFlow.lookup x = some q →
+        isSccEdge (expandWalkInput inp).st.g (edgeEdge x) = true → q = (expandWalkInput inp).wmax false) :=
+  NX.nxc_kfdc_caps_iff inp hc hef
+
+/-- what the node branch hands to the edge-level constructor is `nxcTranslated` (so `kfdc_caps_equal_iff` speaks about
+the caps of the LP the node branch builds) -/
+theorem kfdc_node_branch_input (inp : NodeModeInput) (wi : WalkInput) (h : kfdcNodeInternal inp = .ok wi) :
+    wi = nxcTranslated inp inp.nf.ng :=
+  NX.nxc_kfdcNodeInternal_ok h
+
+/-- **kLeastAbsErrorsCycles.** `hzero` is needed (`errc_node_mode_cap_from_edge_attribute_differs`): the caps are
+`compute_edge_max_reachable_value(flow_attr)` of the expanded graph, which reads `data.get(flow_attr, 0)` on every
+edge, copies of original edges included — an original edge that carries an attribute named like the flow attribute
+must carry `0`, the value read on an edge without it. Error scaling keyed by node goes to the node copies. -/
+theorem node_mode_is_edge_mode_on_expansion_klaec (inp : NodeModeInput) (lp : LP) (hc : Closed inp.nf.ng.g)
+    (hef : ∀ p ∈ inp.nf.ng.edgeFlow, p.1 ∈ inp.nf.ng.g.edges)
+    (hzero : ∀ x q, inp.nf.ng.edgeFlow.lookup x = some q → q = 0)
+    (h : klaecNodeLP inp = .ok lp) : lp = klaecLP (expandWalkInput inp) :=
+  NX.nxc_klaec_node_eq inp lp hc hef hzero h
+
+/-- **kMinPathErrorCycles** (same caps as `kLeastAbsErrorsCycles`) -/
+theorem node_mode_is_edge_mode_on_expansion_kmpec (inp : NodeModeInput) (lp : LP) (hc : Closed inp.nf.ng.g)
+    (hef : ∀ p ∈ inp.nf.ng.edgeFlow, p.1 ∈ inp.nf.ng.g.edges)
+    (hzero : ∀ x q, inp.nf.ng.edgeFlow.lookup x = some q → q = 0)
+    (h : kmpecNodeLP inp = .ok lp) : lp = kmpecLP (expandWalkInput inp) :=
+  NX.nxc_kmpec_node_eq inp lp hc hef hzero h
+
+/-- the only edges on which `data.get(flow_attr, d)` differs between the node branch's graph and the explicit
+expansion are copies of original edges carrying an attribute of the same name with a value other than `d` -/
+theorem cyclic_node_branch_attribute (inp : NodeModeInput) (e : Edge) (d : Rat)
+    (hd : ∀ x q, inp.nf.ng.edgeFlow.lookup x = some q → e = edgeEdge x → q = d) :
+    ((nxcTranslated inp inp.nf.ng).fOpt e).getD d = ((expandWalkInput inp).fOpt e).getD d :=
+  NX.nxc_fOpt_agree inp e d hd
+
+/-- **cyclic node branches return walks of the caller's graph in original names** (composition with the walk core's
+soundness and `expanded_route_condenses`): every layer of a satisfying assignment of the LP that the node branch of
+`kFlowDecompCycles` builds decodes to a walk of the augmented expansion that is empty (only with `allow_empty_walks`)
+or `v₁.0 v₁.1 … vₙ.0 vₙ.1`, which `get_condensed_paths` turns into the admissible walk `v₁ … vₙ` of the caller's graph
+(a node may repeat). No hypothesis on copied attributes: the caps are not involved. -/
+theorem node_mode_walks_condense_kfdc (inp : NodeModeInput) (given : Option (List Rat)) (lp : LP)
+    (hc : Closed inp.nf.ng.g) (h : kfdcNodeLP inp given = .ok lp) (a : Asg) (hsat : Sat a lp)
+    (i : Nat) (hi : i < inp.nf.k) : WalksCondense inp a i :=
+  NX.nxc_kfdc_walks_condense inp given lp hc h a hsat i hi
+
+theorem node_mode_walks_condense_kcoverc (inp : NodeModeInput) (lp : LP)
+    (hc : Closed inp.nf.ng.g) (h : kcovercNodeLP inp = .ok lp) (a : Asg) (hsat : Sat a lp)
+    (i : Nat) (hi : i < inp.nf.k) : WalksCondense inp a i :=
+  NX.nxc_kcoverc_walks_condense inp lp hc h a hsat i hi
+
+theorem node_mode_walks_condense_klaec (inp : NodeModeInput) (lp : LP)
+    (hc : Closed inp.nf.ng.g) (h : klaecNodeLP inp = .ok lp) (a : Asg) (hsat : Sat a lp)
+    (i : Nat) (hi : i < inp.nf.k) : WalksCondense inp a i :=
+  NX.nxc_klaec_walks_condense inp lp hc h a hsat i hi
+
+theorem node_mode_walks_condense_kmpec (inp : NodeModeInput) (lp : LP)
+    (hc : Closed inp.nf.ng.g) (h : kmpecNodeLP inp = .ok lp) (a : Asg) (hsat : Sat a lp)
+    (i : Nat) (hi : i < inp.nf.k) : WalksCondense inp a i :=
+  NX.nxc_kmpec_walks_condense inp lp hc h a hsat i hi
+
+/-- `WalksCondense` spelled out -/
+example (inp : NodeModeInput) (a : Asg) (i : Nat) : WalksCondense inp a i ↔
+    ((decodeWalkLayer (expandWalkInput inp).st a i = [] → inp.nf.allowEmpty = true) ∧
+     (decodeWalkLayer (expandWalkInput inp).st a i ≠ [] →
+        ∃ p, condensePath inp.nf.ng.g.nodes [] (decodeWalkLayer (expandWalkInput inp).st a i) = .ok p ∧
+          ValidRoute inp.nf.ng.g inp.starts inp.ends p ∧
+          decodeWalkLayer (expandWalkInput inp).st a i = expandPath p)) := Iff.rfl
+
+/-- **the hypothesis `hcap` cannot be dropped** (finding `C11-cyclic-node-mode-cap-from-edge-attribute`, replayed on the
+real class): `s → a → t` with the self-loop `a → a`, node values `1, 2, 1`, `k = 1`, and the edge attribute `flow = 0`
+on the self-loop. The node branch accepts the input and caps the copy `(a.1, a.0)` of the self-loop at `0`; its LP has no
+satisfying assignment, whereas the LP of the edge-level class on the explicit expansion (cap `w_max = 2`) is satisfied by
+the walk `s, a, a, t` with weight `1`. -/
+theorem kfdc_node_mode_cap_from_edge_attribute_differs :
+    ∃ lp, kfdcNodeLP NX.LoopCap.inp none = .ok lp ∧ (∀ a, ¬ Sat a lp) ∧
+      Sat NX.LoopCap.asgX (kfdcLP (expandWalkInput NX.LoopCap.inp) none) ∧
+      lp ≠ kfdcLP (expandWalkInput NX.LoopCap.inp) none ∧
+      nxcCapOf lp ("a.1", "a.0") = some (some 0) ∧
+      nxcCapOf (kfdcLP (expandWalkInput NX.LoopCap.inp) none) ("a.1", "a.0") = some (some 2) :=
+  ⟨_, NX.LoopCap.node_lp, NX.LoopCap.node_infeasible, NX.LoopCap.expansion_feasible, NX.LoopCap.lp_differs,
+    NX.LoopCap.caps.1, NX.LoopCap.caps.2.1⟩
+
+/-- **the hypothesis `hzero` cannot be dropped**: the same graph with node values `1/2, 3/2, 1/2`, float weights and the
+edge attribute `flow = 9` on the self-loop: the node branches of the two error classes cap the expanded edge of `a` at `9`,
+the edge-level classes on the explicit expansion at `3/2` (on the real classes: objective `0` in node mode — `s, a, a, a, t`
+with weight `1/2` — against `1` / `1/2` on the explicit expansion). -/
+theorem errc_node_mode_cap_from_edge_attribute_differs :
+    errcNodeInternal NX.LoopCapErr.inp = .ok (nxcTranslated NX.LoopCapErr.inp NX.LoopCapErr.inp.nf.ng) ∧
+    klaecLP (nxcTranslated NX.LoopCapErr.inp NX.LoopCapErr.inp.nf.ng) ≠ klaecLP (expandWalkInput NX.LoopCapErr.inp) ∧
+    kmpecLP (nxcTranslated NX.LoopCapErr.inp NX.LoopCapErr.inp.nf.ng) ≠ kmpecLP (expandWalkInput NX.LoopCapErr.inp) ∧
+    nxcCapOf (klaecLP (nxcTranslated NX.LoopCapErr.inp NX.LoopCapErr.inp.nf.ng)) ("a.0", "a.1") = some (some 9) ∧
+    nxcCapOf (klaecLP (expandWalkInput NX.LoopCapErr.inp)) ("a.0", "a.1") = some (some (3/2)) :=
+  ⟨NX.LoopCapErr.node_internal, NX.LoopCapErr.klaec_lp_differs, NX.LoopCapErr.kmpec_lp_differs,
+    NX.LoopCapErr.caps.1, NX.LoopCapErr.caps.2.1⟩
+
+/-! ### non-vacuity on a concrete cyclic node-weighted graph: `s → a ⇄ b → t` with the self-loop `a → a` -/
+
+open NX.CycExample in
+/-- the expansion of the self-loop `a → a` is `a.1 → a.0`, an edge inside an SCC of the augmented expansion -/
+example : edgeEdge ("a", "a") = ("a.1", "a.0") ∧ ("a.1", "a.0") ∈ (expandGraph g).edges ∧
+    isSccEdge (expandWalkInput exKfdc).st.g ("a.1", "a.0") = true := selfloop_copy
+
+open NX.CycExample in
+/-- the hypotheses of `node_mode_is_edge_mode_on_expansion_kfdc` are satisfiable with original edges that carry the
+attribute (`7` on `(s, a)`, whose copy is outside every SCC; `w_max = 6` on the self-loop), an ignored node, a node
+without the attribute, an edge-form constraint on the self-loop, additional start / end and given weights -/
+example : ∃ lp, kfdcNodeLP exKfdc (some [1]) = .ok lp ∧ lp = kfdcLP (expandWalkInput exKfdc) (some [1]) := by
+  have hok := exKfdc_accepted
+  cases h : kfdcNodeLP exKfdc (some [1]) with
+  | error e => rw [h] at hok; cases hok
+  | ok lp =>
+    exact ⟨lp, rfl, node_mode_is_edge_mode_on_expansion_kfdc exKfdc (some [1]) lp g_closed exKfdc_hef exKfdc_hcap h⟩
+
+open NX.CycExample in
+/-- … and the two input records really differ (ignore list, copied values, translated constraint with a duplicate) -/
+example : (nxcTranslated exKfdc exKfdc.nf.ng).ignore ≠ (expandWalkInput exKfdc).ignore ∧
+    (nxcTranslated exKfdc exKfdc.nf.ng).flow.length = 5 ∧ (expandWalkInput exKfdc).flow.length = 3 ∧
+    (expandWalkInput exKfdc).cfg.constraints = [[("a.0", "a.1"), ("a.1", "a.0"), ("a.0", "a.1")]] ∧
+    (expandWalkInput exKfdc).starts = ["a.0"] ∧ (expandWalkInput exKfdc).ends = ["b.1"] := by decide +kernel
+
+open NX.CycExample in
+example : ∃ lp, klaecNodeLP exErrc = .ok lp ∧ lp = klaecLP (expandWalkInput exErrc) := by
+  have hok := exErrc_klaec_accepted
+  cases h : klaecNodeLP exErrc with
+  | error e => rw [h] at hok; cases hok
+  | ok lp =>
+    exact ⟨lp, rfl, node_mode_is_edge_mode_on_expansion_klaec exErrc lp g_closed exErrc_hef exErrc_hzero h⟩
+
+open NX.CycExample in
+example : ∃ lp, kmpecNodeLP exErrc = .ok lp ∧ lp = kmpecLP (expandWalkInput exErrc) := by
+  have hok := exErrc_kmpec_accepted
+  cases h : kmpecNodeLP exErrc with
+  | error e => rw [h] at hok; cases hok
+  | ok lp =>
+    exact ⟨lp, rfl, node_mode_is_edge_mode_on_expansion_kmpec exErrc lp g_closed exErrc_hef exErrc_hzero h⟩
+
+open NX.CycExample in
+example : ∃ lp, kcovercNodeLP exErrc = .ok lp ∧ lp = kcovercLP (expandWalkCoverInput exErrc) := by
+  have hok := exErrc_kcoverc_accepted
+  cases h : kcovercNodeLP exErrc with
+  | error e => rw [h] at hok; cases hok
+  | ok lp => exact ⟨lp, rfl, node_mode_is_edge_mode_on_expansion_kcoverc exErrc lp g_closed h⟩
+
+open NX.CycExample in
+/-- the error-class record: scaling on the node copies, the zero-scaled node `s` ends up ignored -/
+example : (expandWalkInput exErrc).scaling = [(("a.0", "a.1"), 1/2), (("s.0", "s.1"), 0)] ∧
+    (expandWalkInput exErrc).activeEdges true = [("a.0", "a.1")] ∧
+    (expandWalkInput exErrc).activeEdges false = [("s.0", "s.1"), ("a.0", "a.1")] := by decide +kernel
+
+/-- the 2-cycle `a ⇄ b` alone: no node without in-edges, no node without out-edges; an end is declared, no start -/
+def exNoSource : NodeModeInput :=
+  { nf := { ng := { g := { nodes := ["a", "b"], edges := [("a", "b"), ("b", "a")] }, nodeFlow := [("a", 1), ("b", 1)] },
+            k := 1 }, ends := ["b"] }
+
+open NX.CycExample in
+/-- rejected inputs: unknown start, no source (every node has an in-edge and no start is declared; accepted once a
+start is declared), `k = 0`, more given
+weights than `k`, every valued node ignored -/
+example : (kfdcNodeLP { exKfdc with starts := ["nosuch"] } none).toBool = false ∧
+    (kfdcNodeLP exNoSource none).toBool = false ∧
+    (kfdcNodeLP { exNoSource with starts := ["a"] } none).toBool = true ∧
+    (kfdcNodeLP { exKfdc with nf := { exKfdc.nf with k := 0 } } none).toBool = false ∧
+    (kfdcNodeLP exKfdc (some [1, 1, 1])).toBool = false ∧
+    (kfdcNodeLP { exKfdc with nf := { exKfdc.nf with ignoreNodes := ["s", "a", "b"] } } none).toBool = false := by
+  decide +kernel
 
 end FP.Props.C11
